@@ -342,6 +342,8 @@ static const struct { const char *name; int m[6]; } XF[] = {    /* 16.16: xx xy 
     { "scale0.37", { 0x5eb8, 0, 0x1234, 0, 0x10000, 0 } }, { "scalex-only3", { 0x30000, 0, 0, 0, 0x10000, 0 } },
     { "rot90", { 0, 0x10000, 0, -0x10000, 0, IMGH << 16 } }, { "rot180", { -0x10000, 0, 60 << 16, 0, -0x10000, IMGH << 16 } }, { "rot270", { 0, -0x10000, IMGH << 16, 0x10000, 0, 0 } },
     { "shear", { 0x10000, 0x4000, 0, 0x2000, 0x10000, 0 } }, { "translate-far", { 0x10000, 0, -(20 << 16), 0, 0x10000, 0 } },
+    /* no transform at all, but still a filter / repeat: the untransformed iterators and fast paths have to decline what they cannot do */
+    { "identity", { 0x10000, 0, 0, 0, 0x10000, 0 } }, { "translate-int", { 0x10000, 0, 2 << 16, 0, 0x10000, 1 << 16 } },
 };
 #define NXF ((int)(sizeof XF / sizeof XF[0]))
 static const int XSRC[] = { 0, 1, 6, 8, 2, 3 };          /* a8r8g8b8 x8r8g8b8 r5g6b5 a8 a8b8g8r8 x8b8g8r8 */
